@@ -1,20 +1,289 @@
-import AlgoVerif.Model.AcctUpdates
-/-! C08 — ledger queries answer from the block history, not from flush timing (theorems; work in progress). -/
-namespace AlgoVerif.Props.C08
-open AlgoVerif.Spec.LedgerHistory AlgoVerif.Model.AcctUpdates
+import AlgoVerif.Lemmas.AcctUpdatesReach
+/-!
+# C08 — ledger queries answer from the block history, not from flush timing
 
-/-- the error branches: a round below the tracker DB round / above the latest round is refused, whatever the state -/
-theorem roundOffset_out_of_range (σ : State) (rnd : Nat) :
-    (rnd < σ.dbRound → roundOffset σ rnd = .error .beforeDb) ∧
-    (σ.latest < rnd → roundOffset σ rnd = .error .tooHigh) ∧
-    (σ.dbRound ≤ rnd → rnd ≤ σ.latest → roundOffset σ rnd = .ok (rnd - σ.dbRound)) := by
-  unfold roundOffset State.latest
-  refine ⟨fun h => by simp [h], fun h => ?_, fun h1 h2 => ?_⟩
-  · have h1 : ¬ rnd < σ.dbRound := by omega
+`Model.AcctUpdates` is the code-shaped model of accountUpdates (deltas, per-key indexes with ndeltas, LRU caches with
+pending-write buffers and not-found sets, tracker DB with its round, block store). `Reach ct σ` is the closure of the
+initial state under ALL operations in ANY order: `newBlock` (of a history that stays well formed), `commit k` for every
+`k ≤ |deltas|` and `commitUpTo` (the offset the code computes), `reload`, `resetCaches`, `evict`, `flushCaches`, and the
+state effects of the four lookups (pending cache writes). Theorems:
+
+* `lookup_refines_*`  every lookup at a served round returns `Spec.LedgerHistory.*At (hist σ) rnd key` — the value obtained by
+  applying exactly the blocks `1..rnd` to genesis — whatever was flushed, cached, evicted or reloaded; `validThrough` is a round
+  up to which that value does not change;
+* `lookup_refines`     the same, uniformly over the four key spaces (`Spec.at`);
+* `lookup_flush_independent`  two reachable states with the same block history give the same answers;
+* `lookup_out_of_range` the error branches; `lookup_no_retry` the DB-round re-check never fails on reachable states;
+* `commit_total`        commitRound / postCommit never hit a constraint failure or a Panicf on reachable states;
+* `reload_hist`         a reload (loadFromDisk + replay + flush) keeps the history, hence every answer.
+-/
+namespace AlgoVerif.Props.C08
+open AlgoVerif.Spec.LedgerHistory AlgoVerif.Model.AcctUpdates AlgoVerif.Lemmas.AcctUpdates
+
+/-- LRU re-initialisation (what the harness does after loadFromDisk to get tiny pending buffers) -/
+def resetCaches (σ : State) : State :=
+  { σ with baseAccounts := (mkCaches σ.cfg).1, baseResources := (mkCaches σ.cfg).2.1, baseKVs := (mkCaches σ.cfg).2.2 }
+
+/-- every state the trackers can be in: all operations, any order. `ct` is the (fixed) type of each creatable index. -/
+inductive Reach (ct : Cidx → CType) : State → Prop
+  | init (cfg : Cfg) (gen : List (Addr × AcctData)) (hgen : (AMap.keys gen).Nodup) : Reach ct (init cfg gen)
+  | newBlock (σ : State) (d : Delta) : Reach ct σ → HistWF ct { σ.hist with blocks := σ.hist.blocks ++ [d] } → Reach ct (newBlock σ d)
+  | commit (σ σ' : State) (off : Nat) : Reach ct σ → off ≤ σ.deltas.length → commit σ off = .ok σ' → Reach ct σ'
+  | commitUpTo (σ σ' : State) (r : Nat) : Reach ct σ → commitUpTo σ r = .ok σ' → Reach ct σ'
+  | reload (σ σ' : State) : Reach ct σ → reload σ = .ok σ' → Reach ct σ'
+  | resetCaches (σ : State) : Reach ct σ → Reach ct (resetCaches σ)
+  | evict (σ : State) (na nr nk : Nat) : Reach ct σ → Reach ct (evict σ na nr nk)
+  | flushCaches (σ : State) : Reach ct σ → Reach ct (flushCaches σ)
+  | lookupAcct (σ : State) (rnd : Nat) (a : Addr) : Reach ct σ → Reach ct (lookupAcct σ rnd a).2
+  | lookupRes (σ : State) (rnd : Nat) (a : Addr) (c : Cidx) (t : CType) : Reach ct σ → Reach ct (lookupRes σ rnd a c t).2
+  | lookupKv (σ : State) (rnd : Nat) (k : Key) : Reach ct σ → Reach ct (lookupKv σ rnd k).2
+
+/-- the history of a state: genesis + every block handed to the ledger (the block store) -/
+abbrev hist (σ : State) : History := σ.hist
+
+theorem latest_of_lookup (ct : Cidx → CType) (σ σ' : State) (h : σ'.deltas = σ.deltas ∧ σ'.dbRound = σ.dbRound) :
+    σ'.latest = σ.latest := by
+  unfold State.latest; rw [h.1, h.2]
+
+/-- the invariant of the design holds on every reachable state, and the trackers have seen every block of the store -/
+theorem reach_inv (ct : Cidx → CType) (σ : State) (h : Reach ct σ) : Inv ct σ ∧ Synced σ := by
+  induction h with
+  | init cfg gen hgen => exact init_inv ct cfg gen hgen
+  | newBlock σ d _ hwf ih => exact newBlock_inv ct σ ih.1 ih.2 d hwf
+  | commit σ σ' off _ hoff hc ih =>
+    rcases commit_inv ct σ ih.1 off hoff with ⟨_, σ'', hc', hinv, hh, hl, _, _⟩ | ⟨_, _, herr⟩
+    · rw [hc'] at hc; simp only [Except.ok.injEq] at hc; subst hc
+      exact ⟨hinv, by unfold Synced at *; rw [hl, hh]; exact ih.2⟩
+    · rw [herr] at hc; simp at hc
+  | commitUpTo σ σ' r _ hc ih =>
+    obtain ⟨hinv, hh, hl, _⟩ := commitUpTo_inv ct σ ih.1 r σ' hc
+    exact ⟨hinv, by unfold Synced at *; rw [hl, hh]; exact ih.2⟩
+  | reload σ σ' _ hr ih =>
+    obtain ⟨hinv, hs, _⟩ := reload_inv ct σ ih.1 σ' hr
+    exact ⟨hinv, hs⟩
+  | resetCaches σ _ ih =>
+    obtain ⟨cA, cR, cK⟩ := mkCaches_inv σ.cfg (fun a => AMap.get σ.db.accts a) (fun k => AMap.get σ.db.res k)
+      (fun k => AMap.get σ.db.kvs k) σ.dbRound
+    exact ⟨{ ih.1 with lruA := cA, lruR := cR, lruK := cK }, ih.2⟩
+  | evict σ na nr nk _ ih => exact ⟨evict_inv ct σ ih.1 na nr nk, ih.2⟩
+  | flushCaches σ _ ih => exact ⟨flushCaches_inv ct σ ih.1, ih.2⟩
+  | lookupAcct σ rnd a _ ih =>
+    refine ⟨lookupAcct_inv ct σ ih.1 rnd a, ?_⟩
+    have : (Model.AcctUpdates.lookupAcct σ rnd a).2.hist = σ.hist ∧ (Model.AcctUpdates.lookupAcct σ rnd a).2.latest = σ.latest := by
+      unfold Model.AcctUpdates.lookupAcct acctFromDb State.latest
+      repeat' split
+      all_goals exact ⟨rfl, rfl⟩
+    unfold Synced at *; rw [this.1, this.2]; exact ih.2
+  | lookupRes σ rnd a c t _ ih =>
+    refine ⟨lookupRes_inv ct σ ih.1 rnd a c t, ?_⟩
+    have : (Model.AcctUpdates.lookupRes σ rnd a c t).2.hist = σ.hist ∧ (Model.AcctUpdates.lookupRes σ rnd a c t).2.latest = σ.latest := by
+      unfold Model.AcctUpdates.lookupRes resFromDb State.latest
+      repeat' split
+      all_goals exact ⟨rfl, rfl⟩
+    unfold Synced at *; rw [this.1, this.2]; exact ih.2
+  | lookupKv σ rnd k _ ih =>
+    refine ⟨lookupKv_inv ct σ ih.1 rnd k, ?_⟩
+    have : (Model.AcctUpdates.lookupKv σ rnd k).2.hist = σ.hist ∧ (Model.AcctUpdates.lookupKv σ rnd k).2.latest = σ.latest := by
+      unfold Model.AcctUpdates.lookupKv kvFromDb State.latest
+      repeat' split
+      all_goals exact ⟨rfl, rfl⟩
+    unfold Synced at *; rw [this.1, this.2]; exact ih.2
+
+/-- on reachable states the latest round is the length of the block history -/
+theorem reach_latest (ct : Cidx → CType) (σ : State) (h : Reach ct σ) : σ.latest = (hist σ).latest :=
+  (reach_inv ct σ h).2
+
+/-! ### lookups refine the history -/
+
+/-- accounts (lookupWithoutRewards / LookupAccount): the value of the history at `rnd`; `validThrough` is sound -/
+theorem lookup_refines_acct (ct : Cidx → CType) (σ : State) (h : Reach ct σ) (rnd : Nat) (a : Addr)
+    (h1 : σ.dbRound ≤ rnd) (h2 : rnd ≤ σ.latest) :
+    ∃ vt, (lookupAcct σ rnd a).1 = .ok (acctAt (hist σ) rnd a, vt) ∧ rnd ≤ vt ∧ vt ≤ σ.latest ∧
+      ∀ r, rnd ≤ r → r ≤ vt → acctAt (hist σ) r a = acctAt (hist σ) rnd a := by
+  obtain ⟨vt, g1, g2, g3, g4, _⟩ := lookupAcct_spec ct σ (reach_inv ct σ h).1 rnd a h1 h2
+  exact ⟨vt, g1, g2, g3, g4⟩
+
+/-- resources (lookupResource / LookupAsset / LookupApplication), asked with the creatable's own type -/
+theorem lookup_refines_res (ct : Cidx → CType) (σ : State) (h : Reach ct σ) (rnd : Nat) (a : Addr) (c : Cidx)
+    (h1 : σ.dbRound ≤ rnd) (h2 : rnd ≤ σ.latest) :
+    ∃ vt, (lookupRes σ rnd a c (ct c)).1 = .ok (resAt (hist σ) rnd a c (ct c), vt) ∧ rnd ≤ vt ∧ vt ≤ σ.latest ∧
+      ∀ r, rnd ≤ r → r ≤ vt → resAt (hist σ) r a c (ct c) = resAt (hist σ) rnd a c (ct c) := by
+  obtain ⟨vt, g1, g2, g3, g4, _⟩ := lookupRes_spec ct σ (reach_inv ct σ h).1 rnd a c h1 h2
+  exact ⟨vt, g1, g2, g3, g4⟩
+
+/-- boxes (lookupKv / LookupKv) -/
+theorem lookup_refines_kv (ct : Cidx → CType) (σ : State) (h : Reach ct σ) (rnd : Nat) (k : Key)
+    (h1 : σ.dbRound ≤ rnd) (h2 : rnd ≤ σ.latest) : (lookupKv σ rnd k).1 = .ok (kvAt (hist σ) rnd k) :=
+  (lookupKv_spec ct σ (reach_inv ct σ h).1 rnd k h1 h2).1
+
+/-- creators (getCreatorForRound / GetCreatorForRound), any type asked -/
+theorem lookup_refines_creator (ct : Cidx → CType) (σ : State) (h : Reach ct σ) (rnd : Nat) (c : Cidx) (t : CType)
+    (h1 : σ.dbRound ≤ rnd) (h2 : rnd ≤ σ.latest) : lookupCreator σ rnd c t = .ok (creatorAt (hist σ) rnd c t) :=
+  lookupCreator_spec ct σ (reach_inv ct σ h).1 rnd c t h1 h2
+
+/-- the four lookups behind one interface -/
+def lookup (σ : State) (rnd : Nat) : QKey → Except Err QVal
+  | .acct a => (lookupAcct σ rnd a).1.map (fun r => .acct r.1)
+  | .res a c t => (lookupRes σ rnd a c t).1.map (fun r => .res r.1)
+  | .kv k => (lookupKv σ rnd k).1.map .kv
+  | .creator c t => (lookupCreator σ rnd c t).map .creator
+
+def typed (ct : Cidx → CType) : QKey → Prop
+  | .res _ c t => t = ct c
+  | _ => True
+
+/-- **C08.** Every lookup at a round the ledger still serves returns the state obtained by applying exactly the blocks up to
+    that round to genesis — on every reachable state, i.e. whatever has been flushed, cached, evicted or reloaded. -/
+theorem lookup_refines (ct : Cidx → CType) (σ : State) (h : Reach ct σ) (rnd : Nat) (k : QKey) (hk : typed ct k)
+    (h1 : σ.dbRound ≤ rnd) (h2 : rnd ≤ σ.latest) : lookup σ rnd k = .ok («at» (hist σ) rnd k) := by
+  cases k with
+  | acct a =>
+    obtain ⟨vt, g, _⟩ := lookup_refines_acct ct σ h rnd a h1 h2
+    simp only [lookup, g]; rfl
+  | res a c t =>
+    simp only [typed] at hk; subst hk
+    obtain ⟨vt, g, _⟩ := lookup_refines_res ct σ h rnd a c h1 h2
+    simp only [lookup, g]; rfl
+  | kv key => simp only [lookup, lookup_refines_kv ct σ h rnd key h1 h2]; rfl
+  | creator c t => simp only [lookup, lookup_refines_creator ct σ h rnd c t h1 h2]; rfl
+
+/-- the answer does not depend on which rounds have been flushed, on cache contents, or on restarts: two reachable states
+    with the same block history agree on every round both serve -/
+theorem lookup_flush_independent (ct : Cidx → CType) (σ₁ σ₂ : State) (h₁ : Reach ct σ₁) (h₂ : Reach ct σ₂)
+    (hh : hist σ₁ = hist σ₂) (rnd : Nat) (k : QKey) (hk : typed ct k)
+    (a1 : σ₁.dbRound ≤ rnd) (a2 : σ₂.dbRound ≤ rnd) (b : rnd ≤ (hist σ₁).latest) :
+    lookup σ₁ rnd k = lookup σ₂ rnd k := by
+  rw [lookup_refines ct σ₁ h₁ rnd k hk a1 (by rw [reach_latest ct σ₁ h₁]; exact b),
+      lookup_refines ct σ₂ h₂ rnd k hk a2 (by rw [reach_latest ct σ₂ h₂, ← hh]; exact b), hh]
+
+/-- the error branches: below the tracker DB round (`RoundOffsetError`), above the latest round ("too high") -/
+theorem lookup_out_of_range (σ : State) (rnd : Nat) (k : QKey) :
+    (rnd < σ.dbRound → lookup σ rnd k = .error .beforeDb) ∧ (σ.latest < rnd → lookup σ rnd k = .error .tooHigh) := by
+  have hb : rnd < σ.dbRound → roundOffset σ rnd = .error .beforeDb := fun h => by unfold roundOffset; simp [h]
+  have ht : σ.latest < rnd → roundOffset σ rnd = .error .tooHigh := fun h => by
+    unfold roundOffset State.latest at *
+    have h1 : ¬ rnd < σ.dbRound := by omega
     have h2 : rnd - σ.dbRound > σ.deltas.length := by omega
     simp [h1, h2]
-  · have h3 : ¬ rnd < σ.dbRound := by omega
-    have h4 : ¬ rnd - σ.dbRound > σ.deltas.length := by omega
-    simp [h3, h4]
+  constructor
+  · intro h
+    cases k <;> simp only [lookup, Model.AcctUpdates.lookupAcct, Model.AcctUpdates.lookupRes, Model.AcctUpdates.lookupKv,
+      Model.AcctUpdates.lookupCreator, hb h] <;> rfl
+  · intro h
+    cases k <;> simp only [lookup, Model.AcctUpdates.lookupAcct, Model.AcctUpdates.lookupRes, Model.AcctUpdates.lookupKv,
+      Model.AcctUpdates.lookupCreator, ht h] <;> rfl
+
+/-- the DB-round re-check of the lookups (`persistedData.Round == currentDbRound`) always succeeds on reachable states:
+    neither the stale-database error nor the wait-and-retry branch is taken at operation granularity -/
+theorem lookup_no_retry (ct : Cidx → CType) (σ : State) (h : Reach ct σ) : σ.db.round = σ.dbRound :=
+  (reach_inv ct σ h).1.dbr
+
+/-- commitRound / postCommit never fail on a reachable state: no constraint violation, no rows-affected mismatch, no
+    Panicf("inconsistency: flushed ...") — the only refusal is prepareCommit's non-uniform consensus version check, taken
+    exactly when the flushed rounds span two consensus versions -/
+theorem commit_total (ct : Cidx → CType) (σ : State) (h : Reach ct σ) (off : Nat) (hoff : off ≤ σ.deltas.length) :
+    ((off = 0 ∨ σ.versions[1]? = σ.versions[off]?) ∧
+      ∃ σ', commit σ off = .ok σ' ∧ Reach ct σ' ∧ hist σ' = hist σ ∧ σ'.dbRound = σ.dbRound + off) ∨
+    (off ≠ 0 ∧ σ.versions[1]? ≠ σ.versions[off]? ∧
+      commit σ off = .error (.db "attempted to commit series of rounds with non-uniform consensus versions")) := by
+  rcases commit_inv ct σ (reach_inv ct σ h).1 off hoff with ⟨hv, σ', hc, _, hh, _, _, hd⟩ | herr
+  · exact Or.inl ⟨hv, σ', hc, Reach.commit σ σ' off h hoff hc, hh, hd⟩
+  · exact Or.inr herr
+
+/-- restarts: a reload keeps the history (and every reachable state answers from it) -/
+theorem reload_hist (ct : Cidx → CType) (σ σ' : State) (h : Reach ct σ) (hr : reload σ = .ok σ') :
+    hist σ' = hist σ ∧ Reach ct σ' :=
+  ⟨(reload_inv ct σ (reach_inv ct σ h).1 σ' hr).2.2, Reach.reload σ σ' h hr⟩
+
+/-! ### non-vacuity: a concrete well-formed history, flushed half-way, answers from the history -/
+
+namespace Example
+
+def ct : Cidx → CType := fun c => if c ≤ 5 then .asset else .app
+
+def gen : List (Addr × AcctData) := [(1, { bal := 3 })]
+
+/-- round 1: account 1 creates asset 2 and a box -/
+def d1 : Delta :=
+  { accts := [(1, { bal := 5, ta := 1, tap := 1 })], res := [⟨1, 2, .asset, .val 7, .val 3⟩],
+    kvs := [⟨[65], some [1, 2], none⟩], creat := [⟨2, .asset, true, 1⟩] }
+
+/-- round 2: the box is deleted, the holding changes -/
+def d2 : Delta :=
+  { accts := [(1, { bal := 4, ta := 1, tap := 1 })], res := [⟨1, 2, .asset, .val 7, .val 9⟩], kvs := [⟨[65], none, some [1, 2]⟩] }
+
+theorem wf1 : HistWF ct { gen := gen, blocks := [d1] } where
+  genNodup := by decide
+  deltas := by
+    intro d hd; simp at hd; subst hd
+    exact ⟨by decide, by decide, by decide, by decide, by intro r hr; simp [d1] at hr; subst hr; rfl,
+           by intro m hm; simp [d1] at hm; subst hm; rfl⟩
+  kvOld := by
+    intro i d hi m hm
+    match i, hi with
+    | 0, hi => simp at hi; subst hi; simp [d1] at hm; subst hm; rfl
+    | n + 1, hi => simp at hi
+  resFull := by
+    intro i d hi r hr
+    match i, hi with
+    | 0, hi => simp at hi; subst hi; simp [d1] at hr; subst hr; exact ⟨by simp, by simp⟩
+    | n + 1, hi => simp at hi
+  creatFresh := by
+    intro i d hi m hm _
+    match i, hi with
+    | 0, hi => simp at hi; subst hi; rfl
+    | n + 1, hi => simp at hi
+
+theorem wf2 : HistWF ct { gen := gen, blocks := [d1, d2] } where
+  genNodup := by decide
+  deltas := by
+    intro d hd; simp at hd
+    rcases hd with hd | hd <;> subst hd
+    · exact ⟨by decide, by decide, by decide, by decide, by intro r hr; simp [d1] at hr; subst hr; rfl,
+             by intro m hm; simp [d1] at hm; subst hm; rfl⟩
+    · exact ⟨by decide, by decide, by decide, by decide, by intro r hr; simp [d2] at hr; subst hr; rfl,
+             by intro m hm; simp [d2] at hm⟩
+  kvOld := by
+    intro i d hi m hm
+    match i, hi with
+    | 0, hi => simp at hi; subst hi; simp [d1] at hm; subst hm; rfl
+    | 1, hi => simp at hi; subst hi; simp [d2] at hm; subst hm; rfl
+    | n + 2, hi => simp at hi
+  resFull := by
+    intro i d hi r hr
+    match i, hi with
+    | 0, hi => simp at hi; subst hi; simp [d1] at hr; subst hr; exact ⟨by simp, by simp⟩
+    | 1, hi => simp at hi; subst hi; simp [d2] at hr; subst hr; exact ⟨by simp, by simp⟩
+    | n + 2, hi => simp at hi
+  creatFresh := by
+    intro i d hi m hm _
+    match i, hi with
+    | 0, hi => simp at hi; subst hi; rfl
+    | 1, hi => simp at hi; subst hi; simp [d2] at hm
+    | n + 2, hi => simp at hi
+
+def σ2 : State := newBlock (newBlock (init {} gen) d1) d2
+
+theorem reach2 : Reach ct σ2 :=
+  Reach.newBlock _ d2 (Reach.newBlock _ d1 (Reach.init {} gen (by decide)) wf1) wf2
+
+/-- the hypotheses of the theorems are met by a state with one round flushed and one in memory, and the answers are the
+    history's: at round 1 the box exists, at round 2 it is deleted; the holding is 3 then 9 -/
+example : ∃ σ3, commit σ2 1 = .ok σ3 ∧ Reach ct σ3 ∧ σ3.dbRound = 1 ∧ σ3.latest = 2 ∧
+    lookup σ3 1 (.kv [65]) = .ok (.kv (some [1, 2])) ∧ lookup σ3 2 (.kv [65]) = .ok (.kv none) ∧
+    lookup σ3 1 (.res 1 2 .asset) = .ok (.res ⟨some 7, some 3⟩) ∧ lookup σ3 2 (.res 1 2 .asset) = .ok (.res ⟨some 7, some 9⟩) ∧
+    lookup σ3 0 (.acct 1) = .error .beforeDb := by
+  rcases commit_total ct σ2 reach2 1 (by decide) with ⟨_, σ3, hc, hr, hh, hd⟩ | ⟨_, hv, _⟩
+  · have hd1 : σ3.dbRound = 1 := by rw [hd]; rfl
+    have hl : σ3.latest = 2 := by rw [reach_latest ct σ3 hr, hh]; rfl
+    refine ⟨σ3, hc, hr, hd1, hl, ?_, ?_, ?_, ?_, ?_⟩
+    · rw [lookup_refines ct σ3 hr 1 (.kv [65]) trivial (by omega) (by omega), hh]; rfl
+    · rw [lookup_refines ct σ3 hr 2 (.kv [65]) trivial (by omega) (by omega), hh]; rfl
+    · rw [lookup_refines ct σ3 hr 1 (.res 1 2 .asset) rfl (by omega) (by omega), hh]; rfl
+    · rw [lookup_refines ct σ3 hr 2 (.res 1 2 .asset) rfl (by omega) (by omega), hh]; rfl
+    · exact (lookup_out_of_range σ3 0 _).1 (by omega)
+  · exact absurd rfl hv
+
+end Example
 
 end AlgoVerif.Props.C08
